@@ -30,16 +30,19 @@ def setup_paths():
 def load_spec(modname, tier):
     setup_paths()
     mod = importlib.import_module('contracts.' + modname)
-    return mod.build(tier)
+    spec = mod.build(tier)
+    from pyvc import strings
+    strings.REGULAR_MODE = bool(getattr(spec, 'regular_strings', False))
+    return spec
 
 
 def _prove_one(task):
-    modname, target, tier = task
+    modname, target, tier, inner = task
     try:
         from pyvc import verify
         spec = load_spec(modname, tier)
         c = spec.world.by_name[target]
-        rep = verify.prove_function(spec.world, spec.make_models, c, timeout_ms=spec.z3_ms)
+        rep = verify.prove_function(spec.world, spec.make_models, c, timeout_ms=spec.z3_ms, inner_jobs=inner)
         return rep.as_dict()
     except Exception:
         return {'name': target, 'crash': traceback.format_exc()}
@@ -63,7 +66,9 @@ class Spec:
     """What a contracts/<cNN>.py module's build() returns."""
     def __init__(self, property_id, world, make_models, targets, replay=None, bounded=None,
                  assumed=None, trusted=None, notes=None, z3_ms=None, clause_filter=None,
-                 explanation='', design_ref='', python_semantics=None, known_clause_map=None):
+                 explanation='', design_ref='', python_semantics=None, known_clause_map=None,
+                 regular_strings=False):
+        self.regular_strings = regular_strings
         self.property_id, self.world, self.make_models = property_id, world, make_models
         self.targets = targets                    # list of contract names to prove
         self.replay = replay                      # fn(function, clause, model) -> dict
@@ -96,7 +101,8 @@ def run_property(modname, tier='quick', seed=0, jobs=None, write_ledger=False):
     pid = spec.property_id
     jobs = jobs or min(16, os.cpu_count() or 4)
     ctx = mp.get_context('spawn')
-    tasks = [(modname, t, tier) for t in spec.targets]
+    inner = max(1, jobs // max(1, len(spec.targets)))
+    tasks = [(modname, t, tier, inner) for t in spec.targets]
     btasks = [(modname, i, tier, seed) for i in range(len(spec.bounded))]
     reports, bounded = [], []
     with cf.ProcessPoolExecutor(max_workers=jobs, mp_context=ctx) as ex:
@@ -171,6 +177,31 @@ def finish(spec, modname, tier, seed, reports, bounded, t0, write_ledger=False):
             else:
                 undecided.append({'function': r['name'], 'clause': o['name'],
                                   'why': 'refuted abstractly but not reproduced on the real code and not in the ledger: ' + str((rp or {}).get('detail', ''))[:300]})
+    # undecided clauses / out-of-subset paths: concrete search on the real code through the
+    # property's replay harness (bounded stand-in, DESIGN 3.9); a failure found there is a violation
+    searched = set()
+    fallback = []
+    if spec.replay:
+        for u in undecided:
+            if u['function'] in searched:
+                continue
+            searched.add(u['function'])
+            try:
+                rp = spec.replay(u['function'], 'search:' + u['clause'], {})
+            except Exception:
+                rp = {'reproduced': False, 'detail': 'search crashed: ' + traceback.format_exc()[-300:]}
+            fallback.append({'function': u['function'], 'tool': 'concrete differential search (replay harness)',
+                             'found': bool(rp.get('reproduced')), 'detail': str(rp.get('detail'))[:300]})
+            if rp.get('reproduced'):
+                kf = match_known(known, u['function'], u['clause'], rp)
+                if kf is not None:
+                    known_hit.append((kf, u['function']))
+                    continue
+                fn = os.path.join(VERIF, 'replays', '%s_%s.json' % (pid, safe('.'.join(u['function'].split('.')[-2:]) + '_search')))
+                json.dump({'property': pid, 'function': u['function'], 'clause': 'search:' + u['clause'],
+                           'obligation': '%s/%s/%s (undecided deductively; failing input found by concrete search)' % (pid, u['function'], u['clause']),
+                           'solver_model': {}, 'replay': rp, 'repo': REPO, 'tier': tier}, open(fn, 'w'), indent=1, default=str)
+                violations.append(('%s/%s/search' % (pid, u['function']), fn, ''))
     bounded_out = []
     for b in bounded:
         if 'crash' in b:
@@ -209,7 +240,7 @@ def finish(spec, modname, tier, seed, reports, bounded, t0, write_ledger=False):
         'obligation_list': [{'function': r['name'], 'clause': o['name'], 'status': o['status'], 'backend': o['backend'],
                              'secs': o['secs'], 'paths': o['npaths']} for r in reports if 'crash' not in r for o in r['obligations']],
         'undecided': undecided,
-        'bounded_standins': bounded_out,
+        'bounded_standins': bounded_out + fallback,
         'assumed_contracts': spec.assumed,
         'known_findings_matched': [k['id'] for k, _ in known_hit],
         'solver_secs': round(sum(o['secs'] for r in reports if 'crash' not in r for o in r['obligations']), 2),
